@@ -461,7 +461,7 @@ def run(ctx, rep):
                 cnt = flow.place_path(M, op_place(ops[1])) if op_place(ops[1]) else None
                 wth = flow.place_path(M, op_place(ops[3])) if op_place(ops[3]) else None
                 rows.append((e0[1], cnt, wth, span_str(s[3])))
-    rep.floor("C09.b", "keep_checks rows", len(rows), 9)
+    rep.floor("C09.b", "keep_checks rows", len(rows), 6)
     seen_cnt, seen_within, seen_pred = set(), set(), set()
     preds = {}
     for (fnp, cnt, wth, loc) in rows:
@@ -501,7 +501,7 @@ def run(ctx, rep):
             continue
         rep.check("C09.b", f"wired/{f}", f in wired, where=M.loc(), what=f"option {f} appears in a keep_checks row" if f in wired else f"option {f} is NOT wired into keep_checks (it would be accepted and ignored)")
         rep.check("C09.b", f"valid/{f}", f in vfields, where=V.loc(), what=f"is_valid mentions {f}")
-    rep.floor("C09.b", "keep_* fields of KeepOptions", nkeep, 21)
+    rep.floor("C09.b", "keep_* fields of KeepOptions", nkeep, 14)
 
     # ---- C09.a ------------------------------------------------------------------------------------
     minutes = [(h, mi) for h in range(24) for mi in range(60)]
@@ -536,7 +536,7 @@ def run(ctx, rep):
                         f"{fn_key(b)} compares key ({keydesc}): NOT the documented '{period}' partition ({detail['kind']}: e.g. {detail.get('days') or detail.get('times')} "
                         + ("are merged but lie in different periods)" if detail['kind'] == 'too coarse' else "lie in the same period but are separated)")),
                   detail=detail)
-    rep.floor("C09.a", "period predicates evaluated", len(preds), 9)
+    rep.floor("C09.a", "period predicates evaluated", len(preds), 6)
     # ---- C09.d: the counter rule and the within rule of a row are independent (the result is their union) ------------
     from rules.C18 import cd_conditions, expr_names
     dec = []   # blocks that update a counter: `*counter = *counter - 1`
